@@ -15,6 +15,9 @@
                                       isSkipping) over an abstract node tree, with the rows of
                                       fiano's table visitor (NameToRangesMap) as an input
     - pkg/bootflow/datasources/volume_of.go   the volume pick of VolumeOf for one range (fixed code).
+    - pkg/bootflow/steps/intelsteps/measure_pcr0_data.go   MeasurePCR0DATA.Actions: where the
+                                      IBB digest of each measured algorithm is, given the shape of
+                                      the BPM's digest list (the per-algorithm search).
 
     All Go arithmetic here is uint64: every [+]/[-] is followed by [wrap64]. *)
 From CSS Require Import Lib.Base.
@@ -223,3 +226,38 @@ Definition volume_of_one (size : Z) (nodes : list (bool * range)) (r : range) : 
   | Some v => Ok [(pmm_unresolve size (fst v), snd v)]
   | None => Err 1
   end.
+
+(** * PCR0_DATA: the reference to the IBB digest of one hash algorithm *)
+
+(** The BPM's IBB digest list as the code sees it: per entry the algorithm identifier and
+    [len(HashBuffer)]. On flash an entry is [HashAlg(2) Size(2) HashBuffer(Size)]:
+    [TotalSize() = 4 + len], and the buffer starts [HashBufferOffset() + 2 = 4] bytes into
+    the entry. *)
+Definition digest_shape : Type := list (Z * Z).
+
+(** [for idx := range digests { if digests[idx].HashAlg == hashAlgo {...; break};
+     offsetToCurrentDigest += digests[idx].TotalSize() }] with [acc] the distance of the
+    current entry from the first one. Result: (distance of the hash buffer from the first
+    entry, length), [None] when no entry has the algorithm ("found" stays false). *)
+Fixpoint digest_find (ds : digest_shape) (acc : Z) (alg : Z) : option range :=
+  match ds with
+  | [] => None
+  | (a, l) :: t => if a =? alg then Some (acc + 4, l) else digest_find t (acc + 4 + l) alg
+  end.
+
+Definition ALG_SHA1 : Z := 4.
+Definition ALG_SHA256 : Z := 11.
+
+(** [first] = [bpmAddr + SEOffset() + SE[0].DigestListOffset() + ListOffset() + 2], the physical
+    address of the first list entry (uint64). The search starts there FOR EVERY algorithm
+    ([offsetToCurrentDigest := offsetToTheFirstDigest] inside the loop over the algorithms).
+    One element per algorithm, in the order the code measures them: the reference's range, or
+    [None] when a Panic action is emitted instead of the measurement. *)
+Definition pcr0_digest_ref (first : Z) (ds : digest_shape) (alg : Z) : option range :=
+  match digest_find ds 0 alg with
+  | Some (rel, l) => Some (wrap64 (first + rel), l)
+  | None => None
+  end.
+
+Definition pcr0_digest_refs (first : Z) (ds : digest_shape) : list (option range) :=
+  map (pcr0_digest_ref first ds) [ALG_SHA1; ALG_SHA256].
